@@ -36,21 +36,54 @@ func runEngineI(p *Prog, o *obls) {
 			continue
 		}
 		// writer closures that set a header extension from a shared counter
-		var setExt []*ssa.Call
-		instrsOf(c.Fn, func(in ssa.Instruction) {
-			if call, ok := in.(*ssa.Call); ok {
-				if sc := call.Call.StaticCallee(); sc != nil && sc.Name() == "SetExtension" && typeKey(sc.Signature.Recv().Type()) == "github.com/pion/rtp.Header" {
-					setExt = append(setExt, call)
+		setExtIn := func(fn *ssa.Function) []*ssa.Call {
+			var out []*ssa.Call
+			instrsOf(fn, func(in ssa.Instruction) {
+				if call, ok := in.(*ssa.Call); ok {
+					if sc := call.Call.StaticCallee(); sc != nil && sc.Name() == "SetExtension" && sc.Signature.Recv() != nil && typeKey(sc.Signature.Recv().Type()) == "github.com/pion/rtp.Header" {
+						out = append(out, call)
+					}
+				}
+			})
+			return out
+		}
+		closureFn := c.Fn
+		setExt := setExtIn(c.Fn)
+		var p2 []string
+		if len(setExt) == 0 {
+			// the per-packet work moved into a named helper the closure delegates to: analyse the helper, and require
+			// that the closure runs it at most once per packet
+			var helperCalls []*ssa.Call
+			var helper *ssa.Function
+			instrsOf(closureFn, func(in ssa.Instruction) {
+				if call, ok := in.(*ssa.Call); ok {
+					if sc := call.Call.StaticCallee(); sc != nil && p.InUniverse(sc) && sc.Blocks != nil && sc != closureFn && len(setExtIn(sc)) > 0 {
+						helperCalls = append(helperCalls, call)
+						helper = sc
+					}
+				}
+			})
+			if len(helperCalls) != 1 {
+				continue
+			}
+			setExt = setExtIn(helper)
+			hc := helperCalls[0]
+			bf, _ := pathCounts(closureFn, func(in ssa.Instruction) bool { return in == ssa.Instruction(hc) })
+			for _, b := range closureFn.Blocks {
+				if ret, ok := b.Instrs[len(b.Instrs)-1].(*ssa.Return); ok && b != closureFn.Recover && bf[ret]&4 != 0 {
+					p2 = append(p2, fmt.Sprintf("a path to the return at %s runs the numbering helper more than once for one packet (gap)", p.instrPos(ret)))
 				}
 			}
-		})
-		if len(setExt) == 0 {
-			continue
+			c = &PktClosure{Fn: helper, Kind: c.Kind, Owner: c.Owner, Conv: c.Conv, Next: c.Next}
+			// keep the literal's key: the obligation is about the Bind method's writer
 		}
 		n++
-		key := closureKey(c)
-		pos := p.Pos(c.Fn.Pos())
-		var p1, p2 []string
+		key := funcKey(closureFn)
+		if c.Fn == closureFn {
+			key = closureKey(c)
+		}
+		pos := p.Pos(closureFn.Pos())
+		var p1 []string
 		// allocation sites: atomic read-modify-write calls on a field
 		var allocs []*ssa.Call
 		atomicOf := map[*ssa.Call]*ssa.Call{} // allocation site in the closure → the atomic call that performs it
@@ -530,18 +563,75 @@ func l1l2(p *Prog, o *obls, fn *ssa.Function, gs gateSpec) {
 	key := funcKey(fn)
 	pos := p.Pos(fn.Pos())
 	stateKey, queueKey, headKey := gs.typ+"."+gs.stateField, gs.typ+"."+gs.queueField, gs.typ+"."+gs.headField
-	var qcalls []*ssa.Call
-	instrsOf(fn, func(in ssa.Instruction) {
-		c, ok := in.(*ssa.Call)
-		if !ok || len(c.Call.Args) == 0 || c.Call.StaticCallee() == nil {
-			return
+	directQ := func(c *ssa.Call) bool {
+		if len(c.Call.Args) == 0 || c.Call.StaticCallee() == nil {
+			return false
 		}
 		if u, ok := c.Call.Args[0].(*ssa.UnOp); ok && u.Op == token.MUL {
 			if fa, ok := u.X.(*ssa.FieldAddr); ok && fieldKeyAddr(fa) == queueKey {
-				qcalls = append(qcalls, c)
+				return true
 			}
 		}
-	})
+		return false
+	}
+	qcallsOf := func(g *ssa.Function) []*ssa.Call {
+		var out []*ssa.Call
+		instrsOf(g, func(in ssa.Instruction) {
+			c, ok := in.(*ssa.Call)
+			if !ok {
+				return
+			}
+			if directQ(c) {
+				out = append(out, c)
+				return
+			}
+			// a call of a function parameter (template method: popLocked(take func() (*rtp.Packet, error), …)) whose
+			// every argument is a literal that performs the queue call
+			if _, isPar := p.origin(c.Call.Value).(*ssa.Parameter); isPar && !c.Call.IsInvoke() && c.Call.StaticCallee() == nil {
+				cs := p.Callees(c)
+				all := len(cs) > 0
+				for _, lit := range cs {
+					has := false
+					if p.InUniverse(lit) {
+						instrsOf(lit, func(in2 ssa.Instruction) {
+							if c2, ok := in2.(*ssa.Call); ok && directQ(c2) {
+								has = true
+							}
+						})
+					}
+					if !has {
+						all = false
+					}
+				}
+				if all {
+					out = append(out, c)
+				}
+			}
+		})
+		return out
+	}
+	qcalls := qcallsOf(fn)
+	if len(qcalls) == 0 {
+		// the gated work moved into one helper on the same object (popLocked): analyse the helper
+		var helpers []*ssa.Function
+		instrsOf(fn, func(in ssa.Instruction) {
+			c, ok := in.(*ssa.Call)
+			if !ok {
+				return
+			}
+			h := c.Call.StaticCallee()
+			if h == nil || !p.InUniverse(h) || h.Blocks == nil || h == fn || len(c.Call.Args) == 0 || len(fn.Params) == 0 || p.origin(c.Call.Args[0]) != ssa.Value(fn.Params[0]) {
+				return
+			}
+			if len(qcallsOf(h)) > 0 {
+				helpers = append(helpers, h)
+			}
+		})
+		if len(helpers) == 1 {
+			fn = helpers[0]
+			qcalls = qcallsOf(fn)
+		}
+	}
 	if len(qcalls) == 0 {
 		o.undecided("L1", key, pos, "no call on the queue found")
 		return
@@ -575,7 +665,7 @@ func l1l2(p *Prog, o *obls, fn *ssa.Function, gs gateSpec) {
 			}
 		}
 		if !gated {
-			problems = append(problems, fmt.Sprintf("the queue call %s at %s is not guarded by the playback-state test: a pop before playback has started is not refused", qc.Call.StaticCallee().Name(), p.instrPos(qc)))
+			problems = append(problems, fmt.Sprintf("the queue call at %s is not guarded by the playback-state test: a pop before playback has started is not refused", p.instrPos(qc)))
 		}
 	}
 	// the refusing branch returns an error
@@ -699,6 +789,10 @@ func rootReset(p *Prog, fn *ssa.Function, rootKey string) string {
 				}
 			}
 		case *ssa.Call:
+			// the clear builtin zeroes every element of a slice / removes every key of a map
+			if b, ok := x.Call.Value.(*ssa.Builtin); ok && b.Name() == "clear" && len(x.Call.Args) == 1 && loadsFieldKey(p, x.Call.Args[0], rootKey) && onEveryPath(fn, x) {
+				res = "every element of the root is cleared by the clear builtin at " + p.instrPos(x)
+			}
 			if sc := x.Call.StaticCallee(); sc != nil && sc.Name() == "Clear" && len(x.Call.Args) > 0 && loadsFieldKey(p, x.Call.Args[0], rootKey) && onEveryPath(fn, x) {
 				res = "delegated to the root object's own Clear at " + p.instrPos(x)
 			}
